@@ -11,7 +11,7 @@ Fixpoint abs (v : value) : T.value :=
   match v with
   | VNull => T.VNull
   | VBool b => T.VAtom T.SBoolean (if b then 1 else 0)%N
-  | VNum z => T.VAtom T.SNumber (Z.abs_N z)
+  | VNum d => T.VAtom T.SNumber (Base.Dec.coef d)
   | VStr s => T.VAtom T.SString (N.of_nat (length s))
   | VList l => T.VList (map abs l)
   | VCtx es => T.VCtx (map (fun e => (fst e, abs (snd e))) es)
@@ -64,8 +64,8 @@ Theorem coerced1_identity t v : poison v = false -> T.conformant (type_of1 v) t 
 Proof. intros Hp H. unfold coerced1. rewrite Hp, H. reflexivity. Qed.
 
 Example coerced1_examples :
-  coerced1 (T.TList (T.TS T.SNumber)) (VNum 1) = VList [VNum 1] /\
-  coerced1 (T.TS T.SNumber) (VList [VNum 1]) = VNum 1 /\
+  coerced1 (T.TList (T.TS T.SNumber)) (vnum 1) = VList [vnum 1] /\
+  coerced1 (T.TS T.SNumber) (VList [vnum 1]) = vnum 1 /\
   coerced1 (T.TS T.SNumber) (VStr [97%N]) = VNull /\
-  coerced1 (T.TCtx [(101%N, T.TS T.SNumber)]) (VCtx [(101%N, VNum 1); (102%N, VNum 2)]) = VCtx [(101%N, VNum 1); (102%N, VNum 2)].
+  coerced1 (T.TCtx [(101%N, T.TS T.SNumber)]) (VCtx [(101%N, vnum 1); (102%N, vnum 2)]) = VCtx [(101%N, vnum 1); (102%N, vnum 2)].
 Proof. vm_compute. auto. Qed.
